@@ -279,6 +279,35 @@ func runReset(job *Job) Result {
 									refs[k] = ref
 									refMu.Unlock()
 								}
+								// ... and once more: Reset again (now after B, complete or abandoned at its cut) and use the next probe
+								if cut == 0 && len(probes) > 1 {
+									b2 := probes[(bi+1)%len(probes)]
+									if variant == 0 {
+										x.reset()
+									} else if r, ok := x.(reiniter); ok {
+										r.reinit()
+									}
+									o3, v3, obs3 := useB(x, c, b2, 0)
+									a.st.Calls++
+									k3 := refKey{c.String(), (bi + 1) % len(probes), 0}
+									refMu.Lock()
+									ref3, ok3 := refs[k3]
+									refMu.Unlock()
+									if !ok3 {
+										y := NewObj(c)
+										ro, rv, robs := useB(y, c, b2, 0)
+										ref3 = refVal{ro, rv, robs}
+										refMu.Lock()
+										refs[k3] = ref3
+										refMu.Unlock()
+									}
+									if (o3 != ref3.o || v3 != ref3.v || (v3 != "PANIC" && obs3 != ref3.obs)) && len(a.viol) < job.MaxViol {
+										a.viol = append(a.viol, Violation{Prop: "C12", What: "object used, reset, used, reset again behaves differently from a new object",
+											Cfg: c, Input: toInts(in), Text: fmt.Sprintf("%q stopped at %d (%s), reset, %q, reset, %q", in, stop, va, b, b2),
+											Cuts: []int{stop, cut}, Sig: "reset2:" + c.Kind,
+											Detail: fmt.Sprintf("third use: (%s,%d) %s\nnew object: (%s,%d) %s", v3, o3, obs3, ref3.v, ref3.o, ref3.obs)})
+									}
+								}
 								if o != ref.o || v != ref.v || (v != "PANIC" && obs != ref.obs) {
 									if len(a.viol) < job.MaxViol {
 										how := "Reset()"
